@@ -128,7 +128,8 @@ def _lock():
 
 
 def coq_sources() -> list[Path]:
-    return sorted((COQ / "theories").rglob("*.v")) + sorted((COQ / "properties").glob("*.v"))
+    return ([p for p in sorted((COQ / "theories").rglob("*.v")) if p.name != "Extract.v"]
+            + sorted((COQ / "properties").glob("*.v")))
 
 
 def write_coqproject() -> None:
@@ -158,7 +159,8 @@ def build(targets: list[str] | None = None, timeout: int = 3000) -> str:
         if p.returncode != 0:
             raise BuildError("coq build failed", log)
         # the driver is rebuilt when any model file is newer
-        newest = max(q.stat().st_mtime for q in (COQ / "theories").rglob("*.v"))
+        newest = max(q.stat().st_mtime for q in list((COQ / "theories").rglob("*.v")) + list((COQ / "extract.d").glob("*.list"))
+                     if q.name != "Extract.v")
         newest = max([newest] + [q.stat().st_mtime for q in OCAML.glob("*.ml") if q.name != "model.ml"])
         if (not DRIVER.exists()) or DRIVER.stat().st_mtime < newest:
             p = subprocess.run(["timeout", "600", str(OCAML / "build.sh")], capture_output=True, text=True)
